@@ -61,4 +61,25 @@ func genManager(repo string) {
 	for _, c := range [][2]string{{"StrideMutationID", "strideMutationID"}, {"InitialMutationID", "initialMutationID"}} {
 		g.constNat(repo, ds, c[0], c[1])
 	}
+	// labelmap newLabel with a repositioned counter: the label handed out is the one persisted
+	{
+		lm := loadPkg(repo, "datatype/labelmap")
+		sq := func(fn string) string {
+			if fd := lm.funcDecl("Data", fn); fd != nil {
+				return strings.NewReplacer(" ", "", "\t", "", "\n", "").Replace(lm.src(fd))
+			}
+			return ""
+		}
+		nl, nls, pn, sn := sq("newLabel"), sq("newLabels"), sq("persistNextLabel"), sq("SetNextLabelStart")
+		ok := strings.Contains(nl, "ifd.NextLabel!=0{d.NextLabel++iferr:=d.persistNextLabel();err!=nil{returnd.NextLabel,err}returnd.NextLabel,nil}") &&
+			strings.Contains(nls, "ifd.NextLabel!=0{begin=d.NextLabel+1end=d.NextLabel+numLabelsd.NextLabel=endiferr=d.persistNextLabel();err!=nil{return}return}") &&
+			strings.Contains(pn, "binary.LittleEndian.PutUint64(buf,d.NextLabel)") && strings.Contains(pn, "store.Put(ctx,nextLabelTKey,buf)") &&
+			strings.Contains(sn, "d.NextLabel=nextLabelIDiferr:=d.persistNextLabel();err!=nil{returnerr}")
+		if nl == "" || nls == "" || pn == "" {
+			g.body.WriteString("def nextLabelPersistsIssued : Bool := unknown_nextLabelPersistsIssued\n")
+		} else {
+			fmt.Fprintf(&g.body, "/-- with a repositioned counter, newLabel / newLabels advance NextLabel first and persist exactly that value before returning it -/\ndef nextLabelPersistsIssued : Bool := %v\n", ok)
+			facts.Extra["nextLabelPersistsIssued"] = ok
+		}
+	}
 }
